@@ -61,7 +61,21 @@ pub fn check_commit_trace(rf: &RefOutput, out: &GrevmOutput, n_txs: usize) -> Re
     let mut finality = 0usize;
     let mut committed = 0usize;
     let mut installed: Option<(usize, usize)> = None;
+    // (iv) a validation that predates a rewind covering its transaction never reaches finality:
+    // largest timestamp of a completed rewind to an index <= i
+    let mut rewinds: Vec<(usize, usize)> = Vec::new();
     for l in &out.log {
+        match &l.ev {
+            Ev::Rewind { index, ts, .. } => rewinds.push((*index, *ts)),
+            Ev::Finality { txid, unconfirmed_ts, incarnation, .. } => {
+                if let Some((j, ts)) = rewinds.iter().filter(|(j, ts)| j <= txid && ts > unconfirmed_ts).max_by_key(|(_, ts)| *ts) {
+                    return Err(format!(
+                        "stale validation finalised: transaction {txid} (incarnation {incarnation}) became final with a validation taken at logical time {unconfirmed_ts}, although a validation rewind to index {j} was published later (time {ts}) and covers it"
+                    ));
+                }
+            }
+            _ => {}
+        }
         match &l.ev {
             Ev::Commit { txid, result, delta, .. } => {
                 if *txid != next {
@@ -156,6 +170,8 @@ pub fn evaluate(sc: &Scenario, oracle: &Oracle, precompiles: Precompiles, engine
     let ref_db = {
         let mut d = m.db.clone();
         d.yields = false;
+        // injected panics are not part of in-order semantics: the reference runs without them
+        d.faults.retain(|(_, mode)| !matches!(mode, FaultMode::PanicNth(_)));
         d
     };
     let rf = match engine {
@@ -190,6 +206,17 @@ pub fn evaluate(sc: &Scenario, oracle: &Oracle, precompiles: Precompiles, engine
             }
         }
         Verdict::Completed => {}
+    }
+    {
+        // an injected panic that fired must reach the caller with its original payload
+        let injected = sc.faults.iter().any(|f| matches!(f.mode, FaultMode::PanicNth(_))) || sc.raw_faults.iter().any(|f| matches!(f.mode, FaultMode::PanicNth(_)));
+        if injected && out.db_fired > 0 && out.panic.as_deref() != Some(PANIC_PAYLOAD) && oracle.termination {
+            rep.failure = fail("panic-payload", format!("a database panic was injected and fired, but execute() returned {:?} / panic {:?} instead of unwinding with the original payload", out.result, out.panic));
+            return (rep, Artifacts { rf, out });
+        }
+        if injected && out.panic.is_some() {
+            rep.classes.push("injected_panic_reached_caller".into());
+        }
     }
     if let Some(p) = &out.panic {
         let injected = sc.faults.iter().any(|f| matches!(f.mode, FaultMode::PanicNth(_))) || sc.raw_faults.iter().any(|f| matches!(f.mode, FaultMode::PanicNth(_)));
@@ -268,6 +295,7 @@ pub fn class_histogram(h: &mut BTreeMap<String, u64>, r: &CaseReport) {
     histogram_add(h, "runs_with_estimate_blocked_read", (c.estimate_blocked > 0) as u64);
     histogram_add(h, "runs_with_effective_rewind", (c.rewinds_effective > 0) as u64);
     histogram_add(h, "runs_with_new_write_rewind", (c.new_write_rewinds > 0) as u64);
+    histogram_add(h, "runs_with_error_attempt_between_successful_attempts", (c.err_between_successes > 0) as u64);
     histogram_add(h, "runs_with_rewind_over_validated_tx", (c.stale_unconfirmed_rewinds > 0) as u64);
     histogram_add(h, "runs_with_finality_rejected_by_timestamp", (c.finality_rejected > 0) as u64);
     histogram_add(h, "runs_with_park_ended_by_unpark", (c.unparks > 0) as u64);
@@ -279,6 +307,7 @@ pub fn class_histogram(h: &mut BTreeMap<String, u64>, r: &CaseReport) {
     histogram_add(h, "runs_with_commit_of_incarnation_ge2", (c.commits_inc_ge2 > 0) as u64);
     histogram_add(h, "runs_with_reference_skips", (r.ref_skipped > 0) as u64);
     histogram_add(h, "runs_with_reference_fatal", r.ref_error as u64);
+    histogram_add(h, "runs_with_injected_panic_reaching_caller", r.classes.iter().any(|c| c == "injected_panic_reached_caller") as u64);
     histogram_add(h, "total_attempts", c.attempts);
     histogram_add(h, "total_steps", r.steps);
 }
